@@ -143,7 +143,12 @@ def wf_trees(draw, spec, max_nodes=8, aligned=True, inverted=True, noconcept=Tru
     return build(0)
 
 
-def reify_in_tree(draw, j, table, prob=(1, 2), tail=False):
+def _split_atom(x):
+    from pv.ref.interp import split_atom
+    return split_atom(x)
+
+
+def reify_in_tree(draw, j, table, prob=(1, 2), tail=False, twins=False):
     """Rewrites some branches whose role has a reification in *table* as properly reified nodes, in the text:
     (x :mod y)  ->  (x :ARG1-of (_N / have-mod-91 :ARG2 y)).  Produces the collapsible nodes dereify_edges looks for
     (concept dereifiable, exactly the two argument relations, referenced nowhere else).  Mutates and returns j."""
@@ -176,8 +181,17 @@ def reify_in_tree(draw, j, table, prob=(1, 2), tail=False):
             if base in reifs and x is not None and chance(draw, *prob):
                 concept, sr, tr = reifs[base]
                 v = fresh()
-                nd[1][i] = [sr + '-of', [v, [['/', concept + tilde + aln], [tr, x]]]]
+                if tilde and chance(draw, 1, 3):
+                    # the alignment sits on both argument roles instead of on the concept
+                    nd[1][i] = [sr + '-of' + tilde + aln, [v, [['/', concept], [tr + '~e.9', x]]]]
+                else:
+                    nd[1][i] = [sr + '-of', [v, [['/', concept + tilde + aln], [tr, x]]]]
+                if twins and isinstance(x, str) and chance(draw, 1, 4):
+                    twin.append((nd, [base, _split_atom(x)[0]]))       # the same relation also stated plainly
+    twin = []
     walk(j)
+    for nd, br in twin:
+        nd[1].append(br)
     if tail:
         # the rightmost path: reify the last branch of every node on it (several closes on the last triple)
         nd = j
@@ -219,7 +233,12 @@ def add_decoy(draw, j, table):
     third_role = pick(draw, [tr, tr, sr, ':ARG3', ':polarity'])
     third = [third_role, pick(draw, ['continent', '-', '"s"'])]
     host = nodes[draw(st.integers(0, len(nodes) - 1))]
-    host[1].append([sr + '-of', [v, [['/', concept], [tr, 'country'], third]]])
+    if chance(draw, 1, 2):
+        host[1].append([sr + '-of', [v, [['/', concept], [tr, 'country'], third]]])
+    else:
+        # exactly the two argument relations, but the SOURCE argument is a constant: "(5 :mod host)" is no relation, so the
+        # node stays; hung in front of the other branches so that later (really collapsible) nodes follow it
+        host[1].insert(1 if host[1] and host[1][0][0] == '/' else 0, [tr + '-of', [v, [['/', concept], [sr, pick(draw, ['5', '"s"', '-'])]]]])
     return j
 
 
